@@ -48,8 +48,9 @@ structure FSSynced (files : List (String × File)) (fs : FileSet) : Prop where
   schedUnloaded : ∀ n e, AL.get? fs.sched n = some e → e.data = none → e.onDisk = true
   nodupSched : (AL.keys fs.sched).Nodup
 
-/-- the bytes of every file, the modification times forgotten -/
-def stripTimes (d : Disk) : Disk := retime 0 d
+/-- the bytes of every file a reader is kept open for (glyph directories, images, data; the
+top-level files are always read through a fresh reader), the modification times forgotten -/
+def stripTimes (d : Disk) : Disk := retime 0 { d with parts := [] }
 
 /-- Every stamp in the font holds the bytes that are on disk now, the listings the font knows are
 the listings on disk: the UFO is byte-identical to what the font last read or wrote.  Nothing is
